@@ -235,6 +235,15 @@ def judge(ty, s, rep, sh):
                 if p["fields"] != nums:
                     sh.violation("%s:fields" % ty, "%s parsed from %r has components %r" % (ty, s, p["fields"]), case)
                     return
+            import re as _re
+            if rec is not True and _re.fullmatch(r"[0-9]+(\.[0-9]+)*", s):
+                # whether numbers beyond u64 have to be accepted is left open - but a value that is accepted is the number that was written
+                nums = [int(x) for x in s.split(".")]
+                if ty == "api" and len(nums) == 1:
+                    nums.append(0)
+                if p["fields"] != nums:
+                    sh.violation("%s:fields" % ty, "%s accepts %r as the different number %r" % (ty, s, p["fields"]), case)
+                    return
             if p.get("reparse_eq") is not True:
                 sh.violation("%s:display-parse-not-inverse" % ty, "%s: parse(display(parse(%r))) != parse(%r) (display %r)" % (ty, s, s, shown), case)
                 return
